@@ -1,5 +1,288 @@
-/- Driver for C11 (stub until the property's model is written). -/
+/- Driver for C11: the real qmail-newu / cdb_seek / qmail-getpw / docmd()+spawn() child (harness/c11_users.c)
+   vs the model `Nq.Users`; oracle = `Nq.Spec.Users` evaluated on the implementation's outputs.
+   Input lines: see the header of harness/c11_users.c. -/
 import Drv.Util
-open Drv
-def handle (st : Stats) (_line : String) : IO Stats := return { st with cases := st.cases + 1 }
-def main : IO Unit := runDriver handle
+import Nq.Users
+import Nq.Spec.Users
+
+open Nq Nq.Users Nq.Spec.Users Nq.Gen.Lspawn Drv
+
+structure DS where
+  st : Stats := {}
+  env : Env := { cdb := none, pw := { pws := [], dirs := [] }, uidp := 0, gidn := 0, aliasempty := [], autoQmail := [] }
+  assign : Bytes := []
+  /-- what the source table says, when the current cdb was compiled from it by qmail-newu -/
+  tbl : Option (List Asg) := none
+  /-- the current cdb was installed raw (corrupted / truncated copies) -/
+  raw : Bool := false
+  pwtext : Bytes := []
+  /-- report() first bytes as observed on the implementation: code ↦ byte -/
+  rbytes : List (Nat × Nat) := []
+  /-- hash of the current table + passwd db (for counting distinct cases) -/
+  ctx : UInt64 := 0
+
+def nat? (s : String) : Option Nat := s.toNat?
+
+/-- errno values the harness scripts for stat(): EIO is error_temp, the others are not -/
+def statOf (err owner : Nat) : StatRes := if err = 0 then .ok owner else if err = 5 then .temp else .gone
+
+def splitB (sep : Byte) (b : Bytes) : List Bytes := Nq.Spec.Users.splitOn sep b
+
+def parsePw (t : Bytes) : PwDb :=
+  let lines := (splitB LF t).filter (fun l => !l.isEmpty)
+  let num (b : Bytes) : Nat := decVal (b.takeWhile isDigit)
+  lines.foldl (fun (db : PwDb) l =>
+    match splitB COLON l with
+    | f0 :: f1 :: f2 :: rest =>
+      if f0.head? == some AT then
+        { db with dirs := db.dirs ++ [(f0.drop 1, statOf (num f1) (num f2))] }
+      else match rest with
+        | dir :: flag :: _ => { db with pws := db.pws ++ [⟨f0, num f1, num f2, dir, num flag == 1⟩] }
+        | _ => db
+    | _ => db) { pws := [], dirs := [] }
+
+def faultOf : Nat → Fault
+  | 1 => .chdir | 2 => .setgroups | 3 => .setgid | 4 => .setuid | 5 => .execHard | 6 => .execSoft
+  | 7 => .cdbOpen | 8 => .fork | 9 => .execPw | _ => .none
+
+def splitC (c : Char) (s : List Char) : List (List Char) :=
+  s.foldr (fun x acc => if x == c then [] :: acc else match acc with | [] => [[x]] | f :: fs => (x :: f) :: fs) [[]]
+
+def natOfChars (s : List Char) : Option Nat := (String.ofList s).toNat?
+
+def parseEv1 (t : List Char) : Option Ev :=
+  match t with
+  | 'c' :: 'd' :: ':' :: r => (unhex (String.ofList r)).map Ev.chdir
+  | 'f' :: 'm' :: ':' :: r => (natOfChars r).map Ev.fdmove
+  | 'f' :: 'c' :: ':' :: r => (natOfChars r).map Ev.fdcopy
+  | 's' :: 'g' :: m :: r =>
+    match splitC ':' r with
+    | [a, b] => match natOfChars a, natOfChars b with
+      | some n, some g => some (Ev.setgroups n g (m == ':'))
+      | _, _ => none
+    | _ => none
+  | 'g' :: 'i' :: 'd' :: m :: r => (natOfChars r).map (fun g => Ev.setgid g (m == ':'))
+  | 'u' :: 'i' :: 'd' :: m :: r => (natOfChars r).map (fun u => Ev.setuid u (m == ':'))
+  | 'g' :: 'u' :: ':' :: r => (natOfChars r).map Ev.getuid
+  | 'x' :: ':' :: r =>
+    match (splitC '.' r).map (fun h => unhex (String.ofList h)) with
+    | some p :: args => if args.all Option.isSome then some (Ev.execv p (args.filterMap id)) else none
+    | _ => none
+  | _ => none
+
+def parseEv (t : List Char) : Option Ev :=
+  match t with
+  | 'g' :: 'i' :: 'd' :: _ => parseEv1 t
+  | 'g' :: 'u' :: ':' :: _ => parseEv1 t
+  | 'g' :: r => (parseEv1 r).map Ev.g
+  | _ => parseEv1 t
+
+def parseLog (s : String) : Option (List Ev) :=
+  if s == "-" then some [] else
+  let toks := (splitC ';' s.toList).filter (fun t => !t.isEmpty)
+  let evs := toks.map parseEv
+  if evs.all Option.isSome then some (evs.filterMap id) else none
+
+def showOutcome : Outcome → String
+  | .exec => "X 0"
+  | .exit c => s!"E {c}"
+  | .refused m => s!"D {hex m}"
+
+def showLk : Lk → String
+  | .found d => s!"1 {hex d}"
+  | .notFound => "0 -"
+  | .err => "-1 -"
+
+def blob (ds : DS) (loc : Bytes) : String :=
+  hex (ds.assign ++ [37, 10] ++ ds.pwtext ++ [37, 10] ++ loc ++ [10])
+
+def DS.bump (ds : DS) (k : String) : DS := { ds with st := ds.st.bump k }
+/-- only the first 40 reports of each kind are printed in full (they carry the whole table); all are counted -/
+def DS.disagree (ds : DS) (msg : String) : IO DS := do
+  if ds.st.disagree < 40 then IO.println s!"DISAGREE {msg}"
+  return { ds with st := { ds.st with disagree := ds.st.disagree + 1 } }
+def DS.oracleFail (ds : DS) (msg : String) : IO DS := do
+  if ds.st.oracle < 40 then IO.println s!"ORACLE {msg}"
+  return { ds with st := { ds.st with oracle := ds.st.oracle + 1 } }
+
+def implReport (ds : DS) (code : Nat) : Option Nat := (ds.rbytes.find? (fun p => p.1 == code)).map (·.2)
+
+def chk (c : Bool) (msg : String) : List String := if c then [] else [msg]
+
+/-- the property predicate on one delivery attempt of the implementation; returns the list of failed clauses -/
+def oracleS (ds : DS) (flt : Fault) (sender recip : Bytes) (iout : Outcome) (ievs : List Ev) : List String :=
+  let isExit := match iout with | .exit _ => true | _ => false
+  let g := chk (guardedAny [] ievs) "exec-not-guarded-or-root"
+  let e := match iout with
+    | .exit c =>
+      chk (c == 0 || (c == QLX_EXECHARD && flt == .execHard) || implReport ds c == some 90) s!"error-exit-{c}-not-deferred" ++
+      chk (!ievs.any isExecLocal || flt == .execHard || flt == .execSoft) "exit-after-exec"
+    | _ => []
+  let t := match lastAt recip with
+    | none => chk (match iout with | .refused _ => true | _ => false) "no-host-not-refused"
+    | some j =>
+      let loc := recip.take j
+      let dom := recip.drop (j + 1)
+      if loc.isEmpty then chk (iout == .exit 0 && noExec ievs) "null-recipient"
+      else if flt == .cdbOpen || flt == .chdir then chk (noExec ievs && isExit) "db-error-not-deferred"
+      else if ds.raw then []
+      else
+        -- what the tables say: none = unknown; some none = the lookup must fail
+        let viaPw : Option (Option Bytes) := match specGetpw ds.env.pw loc with
+          | .out b => some (some b)
+          | .exit _ => some none
+        let want : Option (Option Bytes) :=
+          match ds.env.cdb, ds.tbl with
+          | some _, some tb => (match specLookup tb loc with
+                               | some r => some (some r)
+                               | none => viaPw)
+          | none, _ => viaPw
+          | some _, none => none
+        match want with
+        | none => []
+        | some none => chk (noExec ievs && (match iout with | .exit c => c != 0 | _ => false)) "lookup-error-not-deferred"
+        | some (some r) =>
+          match parseNughde r with
+          | none => chk (noExec ievs) "exec-with-malformed-record"
+          | some id =>
+            chk (traceOk ds.env id loc dom sender [] ievs) "wrong-identity-or-argv" ++
+            (if id.uid == 0 then chk (noExec ievs && (flt != .none || iout == .exit QLX_ROOT)) "root-not-refused"
+             else if flt == .none then chk (iout == .exec) "assigned-user-not-run" else [])
+  g ++ e ++ t
+
+def handleS (ds : DS) (fltS senderH recipH oc codeS logS : String) : IO DS := do
+  match nat? fltS, unhex senderH, unhex recipH, nat? codeS with
+  | some fltN, some sender, some recip, some code =>
+    let flt := faultOf fltN
+    let mut ds := ds.bump ("S_fault" ++ fltS) |>.bump ("S_" ++ oc ++ (if oc == "E" then codeS else ""))
+    let h := hashBytes (recip ++ [fltN.toUInt8]) ^^^ ds.ctx
+    let fresh := !ds.st.seen.contains h
+    ds := { ds with st := { ds.st with cases := ds.st.cases + 1, seen := ds.st.seen.insert h,
+                                       nontrivial := ds.st.nontrivial + (if fresh then 1 else 0) } }
+    let (mevs, mout) := docmd ds.env flt sender recip
+    let inb := fun (_ : Unit) => match lastAt recip with
+      | some j => blob ds (recip.take j)
+      | none => blob ds recip
+    -- implementation's outcome and trace
+    let iout : Option Outcome := if oc == "X" then some .exec else if oc == "E" then some (.exit code)
+                                 else if oc == "D" then (unhex logS).map Outcome.refused else none
+    let ievs : Option (List Ev) := if oc == "D" then some [] else parseLog logS
+    match iout, ievs with
+    | some iout, some ievs =>
+      -- a corrupted cdb may make the C code fail on memory where the model reports the read error: same class
+      let sameOut := iout == mout ||
+        (ds.raw && (iout == .exit QLX_NOMEM && mout == .exit QLX_CDB))
+      if !(sameOut && (ievs == mevs || (ds.raw && iout == .exit QLX_NOMEM))) then
+        ds ← ds.disagree s!"in={inb ()} kind=spawn fault={fltS} sender={senderH} recip={recipH} raw={ds.raw} impl={oc} {codeS} {logS} model={showOutcome mout} {repr mevs}"
+      let bad := oracleS ds flt sender recip iout ievs
+      if !bad.isEmpty then
+        ds ← ds.oracleFail s!"in={inb ()} kind=spawn what={",".intercalate bad} fault={fltS} sender={senderH} recip={recipH} impl={oc} {codeS} {logS}"
+      if fresh && oc == "X" && ds.st.samples < 3 && recip.length > 4 then
+        IO.println s!"SAMPLE S fault={fltS} recip={recipH} impl={oc} {logS}"
+        ds := { ds with st := { ds.st with samples := ds.st.samples + 1 } }
+      return ds
+    | _, _ => ds.disagree s!"unparsable S log {logS}"
+  | _, _, _, _ => ds.disagree "unparsable S line"
+
+def handle (ds : DS) (line : String) : IO DS := do
+  match fields line with
+  | ["I", uidp, gidn, _uidq, aq, ae] =>
+    match nat? uidp, nat? gidn, unhex aq, unhex ae with
+    | some u, some g, some aq, some ae => return { ds with env := { ds.env with uidp := u, gidn := g, autoQmail := aq, aliasempty := ae } }
+    | _, _, _, _ => ds.disagree "unparsable I line"
+  | ["R", codeS, byteS, _fixed] =>
+    let ds := { ds with st := { ds.st with cases := ds.st.cases + 1 } }
+    match nat? byteS with
+    | none => ds.disagree s!"kind=report code={codeS} no output"
+    | some b =>
+      if codeS == "c" then
+        let ds ← (if b != reportCrashed.toNat then ds.disagree s!"kind=report crashed impl={b} model={reportCrashed}" else pure ds)
+        if b != 90 then ds.oracleFail s!"in=- kind=report what=crash-not-deferred impl={b}" else return ds
+      else match nat? codeS with
+        | none => ds.disagree "unparsable R line"
+        | some c =>
+          let ds := { ds with rbytes := (c, b) :: ds.rbytes }
+          let ds ← (if b != (reportByte c).toNat then ds.disagree s!"kind=report code={c} impl={b} model={reportByte c}" else pure ds)
+          if lookupErrors.contains c && b != 90 then ds.oracleFail s!"in=- kind=report what=lookup-error-{c}-reported-as-{b}" else return ds
+  | ["P", th] =>
+    match unhex th with
+    | some t => return { ds with pwtext := t, env := { ds.env with pw := parsePw t }, ctx := hashBytes (t ++ ds.assign) }
+    | none => ds.disagree "unparsable P line"
+  | ["N", ah, rcS, ch, eh] =>
+    match unhex ah, nat? rcS, (if ch == "x" then some none else (unhex ch).map some) with
+    | some a, some rc, some icdb =>
+      let mut ds := { ds with assign := a, raw := false, env := { ds.env with cdb := icdb }, ctx := hashBytes (ds.pwtext ++ a) }
+      ds := ds.bump (if rc == 0 then "newu_ok" else "newu_refused")
+      ds := { ds with st := { ds.st with cases := ds.st.cases + 1 } }
+      let m := newuFile a
+      let agree := match m, icdb with
+        | some mb, some ib => rc == 0 && mb == ib
+        | none, none => rc == 111
+        | _, _ => false
+      if !agree then
+        let ms := match m with | some mb => s!"0 len={mb.length} {(hex mb).take 200}" | none => "111"
+        ds ← ds.disagree s!"in={blob ds []} kind=newu assign={ah} impl={rcS} len={(match icdb with | some b => b.length | none => 0)} err={eh} model={ms}"
+      -- oracle: the file is compiled iff the independent reading accepts it
+      let sp := specParse a
+      ds := { ds with tbl := if rc == 0 then sp else none }
+      if (rc == 0) != sp.isSome then
+        ds ← ds.oracleFail s!"in={blob ds []} kind=newu what={if rc == 0 then "malformed-table-compiled" else "valid-table-refused"} assign={ah} rc={rcS}"
+      return ds
+    | _, _, _ => ds.disagree "unparsable N line"
+  | ["C", ch] =>
+    match (if ch == "x" then some none else (unhex ch).map some) with
+    | some c => return { ds.bump "raw_cdb" with env := { ds.env with cdb := c }, tbl := none, raw := ch != "x", assign := (if ch == "x" then [] else ds.assign),
+                                                ctx := hashBytes (ds.pwtext ++ (match c with | some b => b | none => [])) }
+    | none => ds.disagree "unparsable C line"
+  | ["K", kh, rS, dh] =>
+    match unhex kh, rS.toInt?, unhex dh, ds.env.cdb with
+    | some k, some r, some d, some f =>
+      let mut ds := ds.bump ("K_" ++ rS)
+      ds := { ds with st := { ds.st with cases := ds.st.cases + 1 } }
+      let m := cdbGet f k
+      let impl : Lk := if r == 1 then .found d else if r == 0 then .notFound else .err
+      -- r = -1 (seek error) and r = -2 (data unreadable) are both "err" for nughde_get
+      if impl != m then
+        ds ← ds.disagree s!"in={blob ds []} kind=seek raw={ds.raw} key={kh} impl={rS} {dh} model={showLk m}"
+      match ds.tbl with
+      | some t =>
+        let want := assocFind (pairsOf t) k
+        let st := findStruct (pairsOf t) k
+        if st != want then
+          ds ← ds.disagree s!"in={blob ds []} kind=struct key={kh} struct={repr st} source={repr want}"
+        let ok := match want with | some w => impl == .found w | none => impl == .notFound
+        if !ok then
+          ds ← ds.oracleFail s!"in={blob ds []} kind=cdb what=compiled-table-differs-from-source key={kh} impl={rS} {dh} source={repr want}"
+      | none => pure ()
+      return ds
+    | _, _, _, _ => ds.disagree "unparsable K line"
+  | ["G", lh, rcS, oh] =>
+    match unhex lh, nat? rcS, unhex oh with
+    | some l, some rc, some o =>
+      let mut ds := ds.bump ("G_" ++ rcS)
+      let h := hashBytes (1 :: l) ^^^ ds.ctx
+      let fresh := !ds.st.seen.contains h
+      ds := { ds with st := { ds.st with cases := ds.st.cases + 1, seen := ds.st.seen.insert h,
+                                         nontrivial := ds.st.nontrivial + (if fresh then 1 else 0) } }
+      let impl : GpwRes := if rc == 0 then .out o else .exit rc
+      let m := getpwMain ds.env.pw l
+      if impl != m || (rc != 0 && !o.isEmpty) then
+        ds ← ds.disagree s!"in={blob { ds with assign := [] } l} kind=getpw local={lh} impl={rcS} {oh} model={repr m}"
+      if impl != specGetpw ds.env.pw l then
+        ds ← ds.oracleFail s!"in={blob { ds with assign := [] } l} kind=getpw what=password-file-rules local={lh} impl={rcS} {oh} spec={repr (specGetpw ds.env.pw l)}"
+      return ds
+    | _, _, _ => ds.disagree "unparsable G line"
+  | ["S", fltS, senderH, recipH, oc, codeS, logS] => handleS ds fltS senderH recipH oc codeS logS
+  | [] => return ds
+  | _ => ds.disagree s!"unparsable line {line.take 120}"
+
+partial def loop11 (h : IO.FS.Stream) (ds : DS) : IO DS := do
+  let line ← h.getLine
+  if line.isEmpty then return ds
+  let ds' ← handle ds line
+  loop11 h ds'
+
+def main : IO Unit := do
+  let stdin ← IO.getStdin
+  let ds ← loop11 stdin {}
+  IO.println s!"STATS {ds.st.json}"
